@@ -26,6 +26,9 @@ type caseSpec struct {
 	IdleMS   int     `json:"idle_ms"` // 0 = no idle timeout
 	G        int     `json:"g"`
 	Ops      int     `json:"ops"` // per goroutine
+	// seq with idle timeout: 1 = climb to the top, then pause/Release down again; 2 = Signal, then pause/Signal
+	// (a timer that is not re-armed by every Release resp. Signal fires in the middle of the chain)
+	Chain int `json:"chain,omitempty"`
 }
 
 // op kinds
@@ -216,7 +219,23 @@ func runSeq(s caseSpec) (lg caseLog) {
 	for _, d := range s.DelaysUS {
 		maxD = max(maxD, d)
 	}
-	for i := 0; i < s.Ops; i++ {
+	var forced []int // op selectors consumed before the random steps
+	n := len(s.DelaysUS)
+	switch {
+	case s.Chain == 1 && idle > 0:
+		for i := 0; i < n-1; i++ {
+			forced = append(forced, 0)
+		}
+		for i := 0; i < (n-2+s.Rate-1)/s.Rate; i++ {
+			forced = append(forced, 99, 99, 30)
+		}
+	case s.Chain == 2 && idle > 0:
+		forced = append(forced, 0)
+		for i := 0; i < 7; i++ {
+			forced = append(forced, 99, 99, 0)
+		}
+	}
+	for i := 0; i < s.Ops+len(forced); i++ {
 		if idle > 0 && (needIdle || ambNow()) {
 			idleWait()
 		}
@@ -226,6 +245,9 @@ func runSeq(s caseSpec) (lg caseLog) {
 		k := r.IntN(100)
 		if idle > 0 && s.Mode == "seq" && r.IntN(100) < 30 {
 			k = 99 // under an idle timeout, many short pauses: the timer must be re-armed by every Signal/Release
+		}
+		if i < len(forced) {
+			k = forced[i]
 		}
 		var e ev
 		touch := func(f func()) {
